@@ -191,8 +191,17 @@ class CovarianceMatrix(object):
                             ] += cov_yy * r0_scale
 
     def _make_covariance_matrix_mp(self, threads):
+        # the pool is ours to shut down: left to the garbage collector its
+        # workers, helper threads and pipes can outlive the build (and pile up
+        # over many builds)
         pool = multiprocessing.Pool(threads)
+        try:
+            self._make_covariance_matrix_pool(pool)
+        finally:
+            pool.close()
+            pool.join()
 
+    def _make_covariance_matrix_pool(self, pool):
         # Now compile the covariance matrix
         self.covariance_matrix = numpy.zeros((2 * self.total_subaps, 2 * self.total_subaps), dtype="float32")
         for layer_n in range(self.n_layers):
